@@ -24,6 +24,11 @@ def nm(n) -> bytes:
     return "/".join(n).encode()
 
 
+def base_bytes(base, mode) -> bytes:
+    raw = nm(base)
+    return raw + b"/" if mode == "slash" else (raw[:-1] if mode == "partial" else raw)
+
+
 def unnm(b: bytes):
     return tuple(b.decode("utf-8", "replace").split("/"))
 
@@ -147,6 +152,11 @@ class Backend:
         self.names = list(names)
         self.probe = None
         self.nstep = 0
+        # base-restricted listings: every directory of the universe, as given, with a trailing slash, and cut
+        # inside its last component ("refs/head": nothing lies under that)
+        dirs = sorted({n[:k] for n in self.names for k in range(1, len(n))})
+        cut = [d for d in dirs if len(d) >= 2 and len(d[-1]) >= 2]
+        self.bases = [(d, mode) for d in dirs for mode in ("plain", "slash")] + [(d, "partial") for d in cut[:1]]
 
     # -- calls
     def call(self, op, n, old, v, t, items=None):
@@ -221,6 +231,18 @@ class Backend:
             out["symrefs"] = {unnm(k): unnm(v) for k, v in c.get_symrefs().items()}
         except Exception as e:  # noqa: BLE001
             out["symrefs"] = "exc:" + type(e).__name__
+        out["sub"] = []
+        for base, mode in self.bases:
+            raw = base_bytes(base, mode)
+            try:
+                keys = sorted(unnm(k) for k in c.subkeys(raw))
+            except Exception as e:  # noqa: BLE001
+                keys = "exc:" + type(e).__name__
+            try:
+                asd = {unnm(k): self.objs.val(v) for k, v in c.as_dict(raw).items()}
+            except Exception as e:  # noqa: BLE001
+                asd = "exc:" + type(e).__name__
+            out["sub"].append({"base": base, "mode": mode, "keys": keys, "asd": asd})
         return out
 
     def close(self):
